@@ -65,6 +65,8 @@ static void PObj_Dealloc(var self) {
   else if (nquar < MAXID) quarantine[nquar++] = mem;
 }
 static void PObj_New(var self, var args) { }
+/* copy(x) = alloc(type_of(x)) + assign: the copy gets its identity in PObj_Alloc; it owns nothing */
+static void PObj_Assign(var self, var obj) { }
 static void PObj_Del(var self) {
   struct PObj* o = self;
   if (o->id >= 0 && o->id < MAXID) fin_cnt[o->id]++;
@@ -94,6 +96,7 @@ static void PObj_Del(var self) {
 }
 static var PObj = Cello(PObj,
   Instance(New, PObj_New, PObj_Del),
+  Instance(Assign, PObj_Assign),
   Instance(Alloc, PObj_Alloc, PObj_Dealloc));
 
 static void* lc_hook_realloc(void* p, size_t n) {
@@ -188,6 +191,21 @@ static int __attribute__((noinline)) run_ops(char* ops) {
       known[id] = 1; if (id > maxid_seen) maxid_seen = (int)id;
       next_id = id; next_isbox = (c == 'b' || c == 'B' || c == 'W'); newborn = id;
       var o = (c == 'n' || c == 'b' || c == 'a') ? new(PObj) : (c == 'N' || c == 'B') ? new_root(PObj) : new_raw(PObj);
+      objs[id] = o;
+      if (id < NK) keep[id] = o;
+      newborn = -1;
+    } else if (c == 'k') {
+      /* k<id>,<src>: copy of a live probe = a new managed object */
+      if (colon) { *colon = 0; parse_marks(colon + 1); }
+      char* comma = strchr(tok, ',');
+      if (!comma) { P(" | BADCASE"); return 0; }
+      *comma = 0;
+      long id = strtol(tok + 1, NULL, 10), src = strtol(comma + 1, NULL, 10);
+      if (id < 0 || id >= MAXID || known[id] || !usable(src)) { P(" | BADCASE"); return 0; }
+      known[id] = 1; if (id > maxid_seen) maxid_seen = (int)id;
+      nspawn[id] = 0;
+      next_id = id; next_isbox = 0; newborn = id;
+      var o = copy(objs[src]);
       objs[id] = o;
       if (id < NK) keep[id] = o;
       newborn = -1;
